@@ -516,6 +516,85 @@ def _attachment(fn):
     return None
 
 
+ORDER_FIXTURE = """
+def f(pars, rng):
+    names = set(pars)
+    sub = {k: pars[k] for k in names}
+    return pm.draw(list(sub.values()), random_seed=rng)
+def g(pars, rng):
+    sub = {k: pars[k] for k in pars}
+    return pm.draw(list(sub.values()), random_seed=rng)
+"""
+
+
+def _unordered_sources(fn):
+    """expressions whose iteration order is not determined by the program's inputs (sets of strings iterate in hash order, which changes with PYTHONHASHSEED):
+    for / comprehension iterables that are a set()/frozenset() call, a set display / comprehension, a set operation on them, or a local bound to one."""
+    flow = A.Flow(fn)
+    out = []
+
+    def is_set(e, depth=0):
+        if isinstance(e, (ast.Set, ast.SetComp)):
+            return True
+        if isinstance(e, ast.Call) and isinstance(e.func, ast.Name) and e.func.id in ("set", "frozenset"):
+            return True
+        if isinstance(e, ast.Call) and isinstance(e.func, ast.Attribute) and e.func.attr in ("union", "intersection", "difference", "symmetric_difference") and is_set(e.func.value, depth + 1):
+            return True
+        if isinstance(e, ast.BinOp) and isinstance(e.op, (ast.BitOr, ast.BitAnd, ast.Sub, ast.BitXor)) and (is_set(e.left, depth + 1) or is_set(e.right, depth + 1)):
+            return True
+        if isinstance(e, ast.IfExp):
+            return is_set(e.body, depth + 1) or is_set(e.orelse, depth + 1)
+        return False
+    for n in A.walk_local(fn):
+        its = []
+        if isinstance(n, ast.For):
+            its.append((n.iter, n))
+        elif isinstance(n, (ast.ListComp, ast.DictComp, ast.GeneratorExp)):
+            for g in n.generators:
+                its.append((g.iter, A.enclosing_stmt(n)))
+        elif isinstance(n, ast.Call) and isinstance(n.func, ast.Name) and n.func.id in ("list", "tuple", "enumerate", "zip") and n.args:
+            for a in n.args:
+                its.append((a, A.enclosing_stmt(n)))
+        for it, at in its:
+            r = it
+            if isinstance(it, ast.Name) and at is not None:
+                try:
+                    r = flow.resolve(it, at=at)
+                except Exception:
+                    r = it
+            if is_set(r):
+                # sorted(set) is fine: its parent is then the sorted() call, which is not one of the consumers above
+                out.append((it, r))
+    return out
+
+
+def check_order(ctx):
+    R = "C10-ORDER"
+    ctx.rule(R, "the order in which random variables are handed to pm.draw (pymc assigns its per-variable seeds in that order) and in which draws are consumed is determined by the "
+                "inputs alone: no function that can reach a draw site iterates an unordered set (string hashing is salted per process, so the order - and with it every drawn "
+                "number - would change with PYTHONHASHSEED although the generator is the same).")
+    from ..loader import _link
+    ft = ast.parse(ORDER_FIXTURE)
+    _link(ft, None)
+    fx = [len(_unordered_sources(f)) for f in ft.body]
+    if not (fx[0] >= 1 and fx[1] == 0):
+        ctx.incomplete_(R, "fixture", "the scanner no longer separates set iteration from dict iteration: %s" % fx)
+    table = needs_rng_table(ctx.prog)
+    n = 0
+    for mn, q, fn in ctx.prog.all_functions():
+        short = q.split(".")[-1]
+        if short not in table and not draw_sites(fn):
+            continue
+        n += 1
+        hits = _unordered_sources(fn)
+        for it, r in hits:
+            ctx.violate(R, it, "%s iterates only ordered collections" % q, "iterates `%s` (= `%s`), a set: its order depends on the process's hash salt, not on the seed" % (A.unparse(it)[:40], A.unparse(r)[:60]),
+                        key="set-iter:" + q)
+        if not hits:
+            ctx.ok(R, fn, "%s iterates only ordered collections" % q, "", nontrivial=False)
+    ctx.floor(R, n, 8)
+
+
 def check_spawn(ctx):
     R = "C10-SPAWN"
     ctx.rule(R, "run_worker gives task i the generator Generator(PCG64(children[i])) with children = <parent seed sequence>.spawn(len(tasks)), "
@@ -577,6 +656,7 @@ def run(ctx):
     check_prov(ctx)
     check_fwd(ctx)
     check_spawn(ctx)
+    check_order(ctx)
     ctx.assume("SeedSequence.spawn(n) yields n distinct children and differs between successive calls on the same parent (numpy contract)")
     ctx.assume("numpy Generator streams are deterministic functions of their seed sequence")
     ctx.assume("pm.draw(random_seed=g) draws only from g")
